@@ -85,6 +85,36 @@ def c_locals(src):
     return names
 
 
+TRANSFORM = 'rename'
+
+
+def _code_pieces(src):
+    return re.split(r'("(?:[^"\\\n]|\\.)*"|\'(?:[^\'\\\n]|\\.)*\'|/\*.*?\*/|//[^\n]*)', src, flags=re.S)
+
+
+def transform_c(src, kind):
+    """behaviour-preserving rewrites of one function's text (code pieces only)"""
+    pieces = _code_pieces(src)
+    for i in range(0, len(pieces), 2):
+        t = pieces[i]
+        if kind == 'nullstyle':
+            t = re.sub(r'== NULL\b', '== 0', t)
+            t = re.sub(r'!= NULL\b', '!= 0', t)
+        elif kind == 'incr':
+            t = re.sub(r'(?<![\w)\]])(\b[A-Za-z_]\w*)\+\+(?=\s*[;)])', r'\1 += 1', t)
+            t = re.sub(r'(?<![\w)\]])(\b[A-Za-z_]\w*)--(?=\s*[;)])', r'\1 -= 1', t)
+        elif kind == 'declsplit':
+            # `    T x = expr;` at any depth -> `    T x;\n    x = expr;` for simple scalar/pointer declarations of one variable
+            def rep(m):
+                ind, ty, stars, var, expr = m.group(1), m.group(2), m.group(3), m.group(4), m.group(5)
+                if ty.split()[0] in ('return', 'goto', 'else', 'case', 'static', 'const') or 'const' in ty.split() or '{' in expr or 'static' in ty.split():
+                    return m.group(0)
+                return '%s%s %s%s;\n%s%s = %s;' % (ind, ty, stars, var, ind, var, expr)
+            t = re.sub(r'^([ \t]+)((?:unsigned |signed |struct |union |enum )?[A-Za-z_]\w*(?: long| int| char)*) (\**)([A-Za-z_]\w*) = ([^;{}\n]+);[ \t]*$', rep, t, flags=re.M)
+        pieces[i] = t
+    return ''.join(pieces)
+
+
 def rename_c(root, relfile, name):
     p = os.path.join(root, relfile)
     text = open(p, encoding='utf8', errors='replace').read()
@@ -92,6 +122,11 @@ def rename_c(root, relfile, name):
     if not ext:
         return None
     src = text[ext[0]:ext[1]]
+    if TRANSFORM != 'rename':
+        out = transform_c(src, TRANSFORM)
+        if out == src:
+            return None
+        return {'file': relfile, 'old': src, 'new': out}, [TRANSFORM]
     names = c_locals(src) - {name}
     if not names:
         return None
@@ -233,6 +268,8 @@ def one(job):
         for fn in os.listdir('/repo'):
             if os.path.isfile(os.path.join('/repo', fn)) and not fn.startswith('.'):
                 shutil.copy2(os.path.join('/repo', fn), os.path.join(root, fn))
+        if kind == 'py' and TRANSFORM != 'rename':
+            return job, 'skip', 'C-only transform', ''
         r = (rename_c if kind == 'c' else rename_py)(root, relfile, name)
         if r is None:
             return job, 'skip', 'nothing to rename', ''
@@ -257,7 +294,10 @@ def main():
     ap.add_argument('props', nargs='*')
     ap.add_argument('-j', type=int, default=12)
     ap.add_argument('--json')
+    ap.add_argument('--transform', default='rename', choices=['rename', 'nullstyle', 'incr', 'declsplit'])
     a = ap.parse_args()
+    global TRANSFORM
+    TRANSFORM = a.transform
     props = [p.upper() for p in a.props] or ['C%02d' % i for i in range(1, 38)]
     jobs = []
     for pid in props:
